@@ -304,17 +304,27 @@ class RowLabel:
 class IndexVals:
     """DataFrame.index: only positional access to single labels is modelled"""
 
-    def __init__(self, n):
+    def __init__(self, n, labels=None):
         self.n = n
         self.values = self
+        self.labels = labels
 
     def abs_getitem(self, it, k):
         if isinstance(k, int) and not isinstance(k, bool) and -self.n <= k < self.n:
-            return RowLabel(k % self.n)
+            return self.labels[k] if self.labels is not None else RowLabel(k % self.n)
+        if self.labels is not None and isinstance(k, slice):
+            return list(self.labels[k])
         return Opaque("index[]")
 
     def abs_len(self):
+        if self.labels is not None:
+            return len(self.labels)
         return NRows(self.n) if self.n else 0
+
+    def abs_iter(self):
+        if self.labels is None:
+            raise Undecided("iteration over an index of unknown labels")
+        return iter(list(self.labels))
 
     def __repr__(self):
         return "<index>"
@@ -411,6 +421,8 @@ def _col(d, c):
     v = d.cols[c]
     if isinstance(v, Vec) and v.aligned and d.index != "range":
         v.aligned = d.index
+    if isinstance(v, Vec) and d.labels is not None:
+        v.labels = d.labels
     return v
 
 
@@ -534,9 +546,34 @@ def load_subscript(it, obj, k):
                 return d.cols[col].v[rows]
         if isinstance(k, Vec):
             return df_select(d, k)
+        if obj.name == "loc" and isinstance(k, slice) and d.exact and d.labels is not None and k.step is None and \
+                all(x is None or (isinstance(x, int) and not isinstance(x, bool)) for x in (k.start, k.stop)):
+            # label slice, both ends included; on a non-monotonic index both labels must exist
+            lab = d.labels
+            mono = all(a < b for a, b in zip(lab, lab[1:]))
+            if mono:
+                k = [i for i, x in enumerate(lab) if (k.start is None or x >= k.start) and (k.stop is None or x <= k.stop)]
+            else:
+                for x in (k.start, k.stop):
+                    if x is not None and x not in lab:
+                        raise Raised("KeyError", f"label {x} not in a non-monotonic index")
+                lo = lab.index(k.start) if k.start is not None else 0
+                hi = lab.index(k.stop) if k.stop is not None else len(lab) - 1
+                k = list(range(lo, hi + 1))
+            out = DF({c: Vec([v.v[i] for i in k], aligned=True) for c, v in d.cols.items()}, len(k), "subset")
+            out.exact, out.labels = True, [lab[i] for i in k]
+            return out
+        if obj.name == "iloc" and isinstance(k, slice) and d.exact and all(x is None or (isinstance(x, int) and not isinstance(x, bool)) for x in (k.start, k.stop, k.step)):
+            k = list(range(d.n))[k]
         if isinstance(k, (list, tuple)) and all(isinstance(i, int) and not isinstance(i, bool) for i in k):
+            if obj.name == "loc" and d.labels is not None:
+                missing = [i for i in k if i not in d.labels]
+                if missing:
+                    raise Raised("KeyError", f"labels {missing} not in index")
+                k = [d.labels.index(i) for i in k]
             out = DF({c: Vec([v.v[i] for i in k], aligned=True) for c, v in d.cols.items()}, len(k), "subset")
             out.exact = getattr(d, "exact", False)
+            out.labels = [d.labels[i] for i in k] if d.labels is not None else None
             return out
         raise Undecided(f".{obj.name}[{k!r}]")
     if isinstance(obj, BoundMethod) and obj.name in ("iat", "iloc", "at", "loc") and isinstance(obj.obj, Vec):
@@ -565,6 +602,11 @@ def load_subscript(it, obj, k):
             k = k.as_mask()
         if isinstance(k, bool):
             raise Undecided("bool index")
+        if isinstance(k, int) and obj.labels is not None and (obj.aligned or obj.fresh):
+            # a Series with literal integer labels: [] looks the label up
+            if k not in obj.labels:
+                raise Raised("KeyError", str(k))
+            return obj.v[obj.labels.index(k)]
         if isinstance(k, int):
             try:
                 return obj.v[k]
@@ -637,6 +679,7 @@ def df_select(d, mask):
         keep = [i for i, m in enumerate(mask.v) if m]
         out = DF({c: Vec([v.v[i] for i in keep], aligned=True) for c, v in d.cols.items()}, len(keep), "subset")
         out.exact = True
+        out.labels = [d.labels[i] for i in keep] if d.labels is not None else None
         return out
     out = DF(d.cols, d.n, "subset")
     prev = d.cols.get("__keep__", Vec([True] * d.n))
@@ -698,6 +741,11 @@ def store_subscript(it, obj, k, v, aug=False):
             obj.v[int(k.cval())] = v
         elif isinstance(k, slice) and k == slice(None, None, None):
             obj.v = bcast(v, len(obj.v))
+        elif isinstance(k, slice) and all(x is None or (isinstance(x, int) and not isinstance(x, bool)) for x in (k.start, k.stop, k.step)):
+            pos = list(range(len(obj.v)))[k]
+            newv = bcast(v, len(pos))
+            for i, x in zip(pos, newv):
+                obj.v[i] = x
         else:
             raise Undecided("vector store with key " + repr(k))
         return
@@ -742,7 +790,7 @@ def value_attr(it, obj, attr):
         if attr == "columns":
             return ColList(c for c in obj.cols if not c.startswith("__"))
         if attr == "index":
-            return IndexVals(obj.n)
+            return IndexVals(obj.n, obj.labels)
         if attr == "empty":
             return obj.n == 0
         if attr == "values":
@@ -1053,6 +1101,8 @@ def vec_method(it, obj, name, args, kw):
             return lift1(lambda x: f.get(x, None), obj)
         return Vec(ai.CTX.per_class(i, lambda x=x: it.call(f, [x], {})) for i, x in enumerate(obj.v))
     if name == "items":
+        if obj.labels is not None and len(obj.labels) == len(obj.v):
+            return list(zip(obj.labels, obj.v))
         return list(enumerate(obj.v))
     if name in ("cumsum", "cummax", "cummin") and obj.exact and all(num(x) and not isinstance(x, bool) for x in obj.v):
         # a literal column of plain numbers: the running aggregate is computed
@@ -1334,6 +1384,10 @@ def ext_call(it, dotted, args, kw):
         if name == "pd.Series" and isinstance(ix, Vec) and isinstance(a0, Vec) and len(ix.v) == len(a0.v) and ix.v and all(isinstance(x, str) for x in ix.v) \
                 and len(set(ix.v)) == len(ix.v) and not ix.aligned:
             return LabelSeries(dict(zip(ix.v, a0.v)))           # a lookup table keyed by distinct literal labels
+        if name == "pd.Series" and isinstance(ix, IndexVals) and ix.labels is not None and isinstance(a0, Vec) and len(a0.v) == len(ix.labels):
+            r = Vec(a0.v, aligned=True)
+            r.labels, r.exact = list(ix.labels), True
+            return r
         if isinstance(a0, Vec):
             return Vec(a0.v, fresh=fresh and not a0.aligned, aligned=a0.aligned and name == "pd.Series")
         if isinstance(a0, (list, tuple)):
